@@ -11,7 +11,7 @@ WAL on + synchronous=FULL (encoded as path assumptions):
  R5 DDL-SYNC           every DDL entry must-pass catalog save, which must-pass File::sync_all.
  R6 TRUNCATE-AFTER-SYNC every WAL truncate / segment removal is preceded by a sync of the replayed storages.
 """
-from paths import (from_field, call_named, atomic_load_of, Assume, must_pass, order_after, must_reach_closure,
+from paths import (source_call, from_field, call_named, atomic_load_of, Assume, must_pass, order_after, must_reach_closure,
                    success_escapes, assumed_cuts, describe_path, t_blocks_of, arg_origin, origin_fields)
 import common
 
@@ -158,6 +158,33 @@ def run(ctx):
     ctx.ob("R3.COMMIT-LOGS", commit.id, ok,
            "COMMIT with dirty pages must pass a WAL sync (or the group-commit hand-off)" if ok else
            "COMMIT can return Ok without logging dirty pages", commit.loc(), describe_path(commit, esc[0]) if esc else None)
+    # R7: the table list COMMIT logs is the dirty tracker's whole-set enumeration (pages are dirtied by paths that
+    # register no write entry: TOAST chunks, batch loads, cached-plan inserts), never a transaction-local list
+    n7 = 0
+    for c in commit.calls:
+        if c.name not in M3 or c.name not in m.fns:
+            continue
+        for i, a in enumerate(c.args[1:], 1):
+            pl = common.operand_place(a)
+            if pl is None or pl[1]:
+                continue
+            ty = commit.locals[pl[0]]
+            if "[u32]" not in ty and "Vec<u32>" not in ty:
+                continue
+            src = source_call(commit, pl[0])
+            hops = 0
+            while src is not None and hops < 4 and (src.name.endswith("::deref") or src.name.endswith("::as_slice") or src.name.endswith("::as_ref") or src.name.endswith("::borrow")):
+                p0 = common.operand_place(src.args[0])
+                src = source_call(commit, p0[0]) if p0 and not p0[1] else None
+                hops += 1
+            n7 += 1
+            okk = (src is not None and src.name.startswith("database::dirty_tracker::ShardedDirtyTracker::")
+                   and src.name in m.fns and m.fns[src.name].nargs == 1)
+            ctx.ob("R7.COMMIT-ENUMERATES-TRACKER", "%s:%s" % (commit.id, c.name.rsplit("::", 1)[-1]), okk,
+                   "table list passed to the logging call comes from a whole-tracker enumeration (%s)" % (src.name if src else "?") if okk else
+                   "COMMIT logs a table list that does not originate from a whole-set enumeration of the dirty tracker (origin: %s): "
+                   "pages dirtied by paths that register no write entry are never logged" % (src.name if src else "not a call"), c.loc())
+    ctx.floor("R7.logged_list_args", n7, 2)
     # inside the hand-off branch: a taken batch must be flushed (the batch is non-empty by the queue's contract)
     LOG3 = must_reach_closure(m, is_sync, A, nonempty=lambda f: any(handoff(c) or c.name.endswith("write_payload_to_wal") for c in f.calls) or True) & may_append
     ntake = 0
